@@ -64,7 +64,7 @@ Section WithTextCompare.
     | VDocument, VDocument => true
     | VElement na, VElement nb => N.eqb na nb && compare_attributes aa ab
     | VText a, VText b => tc a b
-    | VComment a, VComment b => str_eqb a b
+    | VComment a, VComment b => tc a b
     | VPI ta da, VPI tb db =>
         N.eqb ta tb && match da, db with
                        | Some x, Some y => tc x y
